@@ -613,6 +613,12 @@ var c07Rets = []c07Ret{
 	{"local_in_loop", true, "fn f(k: i32, p: &i32) -> &i32 {\n    let n: i32 = 0;\n    while n < k {\n        n = n + 1;\n        if n == 2 { return &n; }\n    }\n    return p;\n}", "let z: i32 = 5;\n    let r: &i32 = f(1, &z);\n    io::Println(r);"},
 	{"local_array_element", true, "fn f(k: i32) -> &i32 {\n    let a: [3]i32 = [k, 2, 3];\n    return &a[1];\n}", "let r: &i32 = f(1);\n    io::Println(r);"},
 	{"local_from_method", true, "fn (s: &S) f() -> &i32 {\n    let v: i32 = s.A;\n    return &v;\n}", "let w: S = {.A = 1, .B = 2, .In = {.C = 3, .D = 4}};\n    let r: &i32 = w.f();\n    io::Println(r);"},
+	{"uninitialised_local_scalar", true, "fn f(k: i32) -> &i32 {\n    let v: i32;\n    v = k + 1;\n    return &v;\n}", "let r: &i32 = f(1);\n    io::Println(r);"},
+	{"uninitialised_local_struct_field", true, "fn f(k: i32) -> &i32 {\n    let v: S;\n    v = {.A = k, .B = 2, .In = {.C = 3, .D = 4}};\n    return &v.B;\n}", "let r: &i32 = f(1);\n    io::Println(r);"},
+	{"uninitialised_local_via_ref_variable", true, "fn f(k: i32) -> &i32 {\n    let v: i32;\n    v = k;\n    let q: &i32 = &v;\n    return q;\n}", "let r: &i32 = f(1);\n    io::Println(r);"},
+	{"const_local", true, "fn f(k: i32) -> &i32 {\n    const v: i32 = 41;\n    return &v;\n}", "let r: &i32 = f(1);\n    io::Println(r);"},
+	{"inferred_local", true, "fn f(k: i32) -> &i32 {\n    let v := k + 1;\n    return &v;\n}", "let r: &i32 = f(1);\n    io::Println(r);"},
+	{"local_in_closure", true, "fn f(k: i32) -> i32 {\n    let g := fn(n: i32) -> &i32 {\n        let v: i32 = n;\n        return &v;\n    };\n    return k;\n}", "io::Println(f(1));"},
 	{"param_ref", false, "fn f(p: &i32) -> &i32 {\n    return p;\n}", "let z: i32 = 5;\n    let r: &i32 = f(&z);\n    io::Println(r);"},
 	{"param_ref_field", false, "fn f(p: &S) -> &i32 {\n    return &p.In.D;\n}", "let w: S = {.A = 1, .B = 2, .In = {.C = 3, .D = 4}};\n    let r: &i32 = f(&w);\n    io::Println(r);"},
 	{"param_mut_ref_field", false, "fn f(p: &'S) -> &'i32 {\n    return &'p.B;\n}", "let w: S = {.A = 1, .B = 2, .In = {.C = 3, .D = 4}};\n    let r: &'i32 = f(&'w);\n    r = 9;\n    io::Println(w.B);"},
@@ -798,7 +804,7 @@ func c07Exhaustive(env *core.Env) []any {
 func init() {
 	core.Register(&core.Prop{
 		ID: "C07",
-		Rule: "event-sequence generator (rapid): structured sequences of borrow episodes over the places x, y, s, s.A, s.B, s.In, s.In.C, s.In.D, t, t.A, t.In, t.In.C, fa, fa[1] (create &T or &'T - or copy a live shared reference into a second reference variable -, do things while the loan is live, use the reference a last time - read or write through -, touch the place afterwards), nested up to depth 3 inside blocks and `if` regions; while loans are live only non-conflicting statements are generated (disjoint fields, reads and shared borrows under shared loans, uses of live references, two &' arguments of disjoint places in one call); in half of the cases exactly one conflicting access is injected against a live loan (read / write / &' or & borrow by let or by call, on the place itself or an overlapping prefix / extension). An independent loan model (textual last use, prefix overlap) labels the finished list: conflict-free => must compile, run and print what the reference interpreter prints (final state of all places, values seen through references); with the injected conflict => `ferret -t` must report an error and the conflict-free twin must be accepted. Second family (exhaustive, 14 shapes): functions returning a reference to a local (scalar, via reference variable, struct field, whole struct, array element, in a branch, in a loop, from a method) must be rejected, returning a parameter / receiver (field) reference must be accepted and work. non-trivial = at least one episode (accept) or a confirmed twin (reject); distinct = program text",
+		Rule: "event-sequence generator (rapid): structured sequences of borrow episodes over the places x, y, s, s.A, s.B, s.In, s.In.C, s.In.D, t, t.A, t.In, t.In.C, fa, fa[1] (create &T or &'T - or copy a live shared reference into a second reference variable -, do things while the loan is live, use the reference a last time - read or write through -, touch the place afterwards), nested up to depth 3 inside blocks and `if` regions; while loans are live only non-conflicting statements are generated (disjoint fields, reads and shared borrows under shared loans, uses of live references, two &' arguments of disjoint places in one call); in half of the cases exactly one conflicting access is injected against a live loan (read / write / &' or & borrow by let or by call, on the place itself or an overlapping prefix / extension). An independent loan model (textual last use, prefix overlap) labels the finished list: conflict-free => must compile, run and print what the reference interpreter prints (final state of all places, values seen through references); with the injected conflict => `ferret -t` must report an error and the conflict-free twin must be accepted. Second family (exhaustive, 20 shapes): functions returning a reference to a local (scalar, via reference variable, struct field, whole struct, array element, in a branch, in a loop, from a method, declared without initialiser, const, inferred, inside a function literal) must be rejected, returning a parameter / receiver (field) reference must be accepted and work. non-trivial = at least one episode (accept) or a confirmed twin (reject); distinct = program text",
 		Gen:        c07GenCase,
 		New:        func() any { return &c07Case{} },
 		Check:      c07Check,
